@@ -151,6 +151,10 @@ def _handle_ConnectionUp (event):
   if _hold_down:
     t = Timer(core.openflow_discovery.send_cycle_time + 1, _update_tree,
               kw={'force_dpid':event.dpid})
+  else:
+    # The switch may come back with flood flags from before it left, and the
+    # topology may have changed meanwhile
+    _update_tree()
 
 
 def _handle_LinkEvent (event):
